@@ -19,10 +19,13 @@
  * address are taken from the emitted frame.
  *
  * Further dimensions:
- *  - the request frame handed to a responder carries every combination of its
- *    three option bits, in particular a WORD-SIZE-16 bit that differs from the
- *    attached memory's width (regp_resp_ack used by hand between regp_recv and
- *    regp_process);
+ *  - the request frame handed to a responder is the one the responding
+ *    instance's own regp_recv returns for the request's wire image (the
+ *    responders are documented for such frames); the request carries every
+ *    combination of its three option bits, in particular a WORD-SIZE-16 bit
+ *    that differs from the attached memory's width (regp_resp_ack used by hand
+ *    between regp_recv and regp_process); option variants the receiver refuses
+ *    are left out;
  *  - every emission is received three times: by a receiver with a large block,
  *    by one whose block has room for exactly the frame, and by one with one
  *    octet to spare; the receivers differ in attached memory width and in the
@@ -131,8 +134,11 @@ new_session(bool tcp, bool m16, unsigned before)
 
 /* reqvar: the option bits of the request frame handed to a responder.  Bit 0:
  * its WORD-SIZE-16 bit differs from the attached memory's width; bits 1 and 2:
- * its WITH-HEADER-CRC / WITH-PAYLOAD-CRC bits (a response's own checksum bits
- * are the transport's business, not the request's). */
+ * its WITH-HEADER-CRC / WITH-PAYLOAD-CRC bit differs from what the transport
+ * mandates for the request (a response's own checksum bits are the transport's
+ * business, not the request's).  The request frame is not built by hand: its
+ * wire image is received by the responding instance's own regp_recv, and a
+ * variant that receiver refuses is left out. */
 struct emission {
     int e;
     bool tcp, m16;
@@ -144,24 +150,69 @@ struct emission {
     uint32_t value;
     unsigned reqvar;
     /* derived by em_prepare */
-    RPFrame req;
+    unsigned char reqwire[96]; /* the answered request in wire form (responders) */
+    size_t reqwn;
+    const RPFrame *req;        /* the frame regp_recv returned for it (em_receive_request) */
     bool mismatch;     /* acknowledgement for a request of the other word size */
-    unsigned char *pl; /* payload memory: exact-size heap block */
+    unsigned char *pl; /* payload memory: exact-size heap block (behind one pad octet when the payload sits at an odd address) */
+    unsigned char *plbase;
     size_t plbuf;      /* its size */
     size_t plen;       /* payload octets the frame has to carry (mismatch: fixed after the emission) */
 };
+
+/* payload address parity for the emitters that take an octet payload */
+static int g_ploff;
+
+static bool
+is_responder(int e)
+{
+    return e >= E_ACK_PAYLOAD && e <= E_EIO;
+}
+
+static bool
+takes_octet_payload(const struct emission *m)
+{
+    return m->e == E_REQ_WRITE8 || (m->e == E_ACK_PAYLOAD && !m->m16);
+}
+
+/* option bits of the request a responder answers */
+static unsigned
+em_request_options(const struct emission *m)
+{
+    const bool req16 = m->m16 != ((m->reqvar & 1u) != 0);
+    /* the checksum bits the transport mandates for this request, each
+     * inverted where reqvar says so */
+    const unsigned mandated = m->tcp ? 0u : (RO_HDCRC | (m->anstype ? RO_PLCRC : 0u));
+    return (req16 ? RO_W16 : 0u) | (mandated ^ (m->reqvar & (RO_HDCRC | RO_PLCRC)));
+}
 
 static void
 em_prepare(struct emission *m)
 {
     const int e = m->e;
-    memset(&m->req, 0, sizeof m->req);
-    m->req.header.type = m->anstype ? RP_FRAME_WRITE_REQUEST : RP_FRAME_READ_REQUEST;
-    m->req.header.sequence = m->seq;
-    m->req.header.address = m->addr;
-    m->req.header.blocksize = 3;
-    const bool req16 = m->m16 != ((m->reqvar & 1u) != 0);
-    m->req.header.options = (req16 ? RP_OPT_WORD_SIZE_16 : 0) | (m->reqvar & (RP_OPT_WITH_HEADER_CRC | RP_OPT_WITH_PAYLOAD_CRC));
+    m->req = NULL;
+    m->reqwn = 0;
+    if (is_responder(e)) {
+        /* The responders are documented for frames returned by regp_recv: the
+         * request is built in wire form (a read request for three units, or a
+         * write request carrying three units) and received by the responding
+         * instance itself (em_receive_request). */
+        static const unsigned char rpl[6] = { 0x11, 0x22, 0x33, 0x44, 0x55, 0x66 };
+        unsigned char raw[40];
+        struct rframe rq;
+        memset(&rq, 0, sizeof rq);
+        rq.type = m->anstype ? RT_WRITE_REQ : RT_READ_REQ;
+        rq.options = em_request_options(m);
+        rq.seq = m->seq;
+        rq.addr = m->addr;
+        rq.bsize = 3;
+        if (m->anstype) {
+            rq.payload = rpl;
+            rq.plen = (rq.options & RO_W16) ? 6 : 3;
+        }
+        const size_t rn = rr_build(raw, &rq, false, false);
+        m->reqwn = m->tcp ? rr_lenprefix(m->reqwire, raw, rn) : rr_slip(m->reqwire, raw, rn);
+    }
     m->mismatch = (m->reqvar & 1u) && (e == E_ACK_PAYLOAD || e == E_ACK_EMPTY);
     const bool w16 = (e == E_REQ_WRITE16) || (e == E_ACK_PAYLOAD && m->m16);
     m->plen = (e == E_REQ_WRITE8 || e == E_REQ_WRITE16 || e == E_ACK_PAYLOAD) ? m->n * (w16 ? 2u : 1u) : 0;
@@ -170,15 +221,59 @@ em_prepare(struct emission *m)
      * request is not fixed, so the block holds n units of the wider kind and
      * the frame says (WORD-SIZE-16) how many octets of it are the payload. */
     m->plbuf = (m->mismatch && e == E_ACK_PAYLOAD) ? m->n * 2u : m->plen;
-    m->pl = mc_exact(m->plbuf);
+    /* Octet payloads may sit anywhere.  (Sixteen bit payloads are handed over
+     * as uint16_t pointers, resp. as a void pointer that the library converts
+     * to one: an odd address is not admissible there - the unchanged library
+     * itself loads misaligned words from it, as UBSan's alignment check shows.) */
+    const size_t off = (g_ploff && takes_octet_payload(m)) ? 1 : 0;
+    m->plbase = mc_exact(m->plbuf + off);
+    m->pl = m->plbase + off;
+    if (off)
+        m->plbase[0] = 0xee;
     fill(m->pl, m->plbuf, m->content);
 }
 
 static void
 em_release(struct emission *m)
 {
-    free(m->pl);
-    m->pl = NULL;
+    free(m->plbase);
+    m->pl = m->plbase = NULL;
+}
+
+/* The responding instance d receives the request it is going to answer.
+ * False: its receiver does not accept this request (a receiver may be strict
+ * about option bits its transport does not mandate): there is nothing to
+ * answer then, the variant is left out.  The frame stays allocated until
+ * em_drop_request. */
+static long g_req_refused;
+
+static bool
+em_receive_request(struct emission *m, struct drv *d)
+{
+    if (!is_responder(m->e))
+        return true;
+    RPMaybeFrame mf;
+    memset(&mf, 0, sizeof mf);
+    drv_feed(d, m->reqwire, m->reqwn);
+    const int rrc = regp_recv(&d->p, &mf);
+    mc_trans(1);
+    d->outlen = 0; /* whatever it said about a request it refuses is not under test here */
+    if (rrc < 0 || mf.error.id != 0 || mf.frame == NULL) {
+        if (mf.frame != NULL)
+            regp_free(&d->p, mf.frame);
+        g_req_refused++;
+        return false;
+    }
+    m->req = mf.frame;
+    return true;
+}
+
+static void
+em_drop_request(struct emission *m, struct drv *d)
+{
+    if (m->req != NULL)
+        regp_free(&d->p, (RPFrame *)m->req);
+    m->req = NULL;
 }
 
 static int
@@ -186,7 +281,7 @@ em_emit(RegP *p, const struct emission *m)
 {
     const uint32_t addr = m->addr, value = m->value;
     const size_t n = m->n;
-    const RPFrame *req = &m->req;
+    const RPFrame *req = m->req;
     switch (m->e) {
     case E_REQ_READ8: return regp_req_read8(p, addr, n);
     case E_REQ_READ16: return regp_req_read16(p, addr, n);
@@ -292,8 +387,11 @@ receive(const struct rframe *want, const char *name, bool tcp, bool rm16, size_t
     }
     if (mf.frame)
         regp_free(&B.p, mf.frame);
-    if (ok && !drv_balanced(&B)) {
-        mc_fail("C08/receiver-ledger", "%s: allocator ledger unbalanced after receive+free (%s)", name, room);
+    /* How many blocks the receiver holds and when it gives them back is C09's
+     * sentence (a receiver may keep a spare block); only a release that is no
+     * release of a live block (double or foreign) is reported here. */
+    if (ok && (B.bad_frees % 100) != 0) {
+        mc_fail("C08/receiver-double-release", "%s: the receiver released a block twice or one the allocator never handed out (%s)", name, room);
         ok = false;
     }
     drv_release(&B);
@@ -308,7 +406,7 @@ static bool
 receive_fitted(const struct rframe *want, const char *name, bool tcp, bool rm16, size_t room, int srcmode, const char *what)
 {
     static bool capped;
-    const size_t bsz = drv_block_for_capacity(room, !tcp);
+    const size_t bsz = drv_block_for_capacity_wide(room, !tcp);
     if (bsz == 0) {
         if (!capped)
             mc_cap("no block size with a learned capacity of exactly the frame (+1): fitted receivers left out");
@@ -336,9 +434,19 @@ one(int e, bool tcp, bool m16, int anstype, uint32_t addr, uint16_t seq, size_t 
     em_prepare(&m);
     if (fresh)
         drv_init(&A, tcp, m16, 4096, false);
-    A.outlen = 0;
     g_ref_wn = 0;
     g_refused = false;
+    if (!em_receive_request(&m, &A)) {
+        /* the instance's own receiver does not take this request variant:
+         * there is no frame to hand to the responder */
+        mc_log("%s: the request variant (options %x) is refused by the receiver, left out", ENAME[e], em_request_options(&m));
+        g_refused = true;
+        if (fresh)
+            drv_release(&A);
+        em_release(&m);
+        return true;
+    }
+    A.outlen = 0;
     const int rc = em_emit(&A.p, &m);
     mc_trans(1);
     struct rframe want;
@@ -347,19 +455,20 @@ one(int e, bool tcp, bool m16, int anstype, uint32_t addr, uint16_t seq, size_t 
     bool ok = true;
     unsigned char raw[RR_MAXFRAME], scratch[DRV_WIRE];
     size_t rn = 0;
-    mc_log("%s (request options %x) rc=%d emitted %zu octets", ENAME[e], m.req.header.options, rc, A.outlen);
+    mc_log("%s (request options %x%s) rc=%d emitted %zu octets", ENAME[e], em_request_options(&m), g_ploff ? "; payload at an odd address" : "", rc, A.outlen);
     mc_log_hex("wire", A.out, A.outlen);
     if (rc < 0 && A.outlen == 0) {
         /* a refused call that puts nothing on the wire emits no frame (e.g.
          * refusing to acknowledge a request of the other word size) */
         g_refused = true;
+        em_drop_request(&m, &A);
         if (fresh)
             drv_release(&A);
         em_release(&m);
         return true;
     }
     if (rc < 0) {
-        mc_fail("C08/emit-succeeds", "%s returned %d with %zu octets on the wire", ENAME[e], rc, A.outlen);
+        mc_fail("C08/emit-succeeds", "%s%s returned %d with %zu octets on the wire", ENAME[e], g_ploff ? " (payload at an odd address)" : "", rc, A.outlen);
         ok = false;
     }
     /* (1) wire octets vs reference.  The WORD-SIZE-16 bit of payload-less
@@ -395,7 +504,7 @@ one(int e, bool tcp, bool m16, int anstype, uint32_t addr, uint16_t seq, size_t 
             rn = rr_build(raw, &want, false, false);
             const size_t wn = tcp ? rr_lenprefix(g_ref_wire, raw, rn) : rr_slip(g_ref_wire, raw, rn);
             if (wn != A.outlen || memcmp(g_ref_wire, A.out, wn) != 0) {
-                mc_fail("C08/wire-octets", "%s: emitted octets differ from the protocol document's encoding (%zu vs %zu octets)", ENAME[e], A.outlen, wn);
+                mc_fail("C08/wire-octets", "%s%s: emitted octets differ from the protocol document's encoding (%zu vs %zu octets)", ENAME[e], g_ploff ? " (payload at an odd address)" : "", A.outlen, wn);
                 mc_log_hex("reference", g_ref_wire, wn);
                 ok = false;
             } else
@@ -415,6 +524,7 @@ one(int e, bool tcp, bool m16, int anstype, uint32_t addr, uint16_t seq, size_t 
         ok = receive_fitted(&want, ENAME[e], tcp, !m16, rn, tcp ? DRV_SRC_CHUNK_GETBUFFER : DRV_SRC_OCTET, "block with room for exactly the frame");
     if (ok)
         ok = receive_fitted(&want, ENAME[e], tcp, m16, rn + 1, DRV_SRC_OCTET, "block with one octet to spare");
+    em_drop_request(&m, &A);
     if (fresh)
         drv_release(&A);
     em_release(&m);
@@ -489,6 +599,12 @@ static int
 emit_scripted(struct emission *m, bool octet_sink, long at1, int a1, long at2, int a2)
 {
     drv_init(&A, m->tcp, m->m16, 4096, false);
+    /* the request is received over the undisturbed channel first */
+    if (!em_receive_request(m, &A)) {
+        memset(&S, 0, sizeof S);
+        drv_release(&A);
+        return -ECANCELED;
+    }
     memset(&S, 0, sizeof S);
     S.at[0] = at1; S.ans[0] = a1;
     S.at[1] = at2; S.ans[1] = a2;
@@ -503,6 +619,7 @@ emit_scripted(struct emission *m, bool octet_sink, long at1, int a1, long at2, i
     regp_use_channel(&A.p, m->tcp ? RP_EP_TCP : RP_EP_SERIAL, src, snk);
     const int rc = em_emit(&A.p, m);
     mc_trans(1);
+    em_drop_request(m, &A);
     drv_release(&A);
     return rc;
 }
@@ -698,6 +815,14 @@ main(int argc, char **argv)
                                             ok = one(e, tcp, m16, anstype, ADDRS[ai], SEQS[si], sizes[zi], c, 0, !isreq, rv);
                                             refused += g_refused;
                                             n++;
+                                            /* octet payloads: once more from an odd address */
+                                            if (ok && sizes[zi] > 0 && rv < 2 && (e == E_REQ_WRITE8 || (e == E_ACK_PAYLOAD && !m16))) {
+                                                g_ploff = 1;
+                                                ok = one(e, tcp, m16, anstype, ADDRS[ai], SEQS[si], sizes[zi], c, 0, !isreq, rv);
+                                                g_ploff = 0;
+                                                refused += g_refused;
+                                                n++;
+                                            }
                                         }
                                     }
                             } else {
@@ -727,14 +852,18 @@ main(int argc, char **argv)
         unsigned char scratch[DRV_WIRE];
         long first = -1;
         uint32_t emitted = 0; /* requests that were not refused */
-        RPFrame rq;
-        memset(&rq, 0, sizeof rq);
-        rq.header.type = RP_FRAME_WRITE_REQUEST;
+        /* the request the interleaved responses answer: received by the instance itself */
+        struct emission rqm;
+        memset(&rqm, 0, sizeof rqm);
+        rqm.e = E_ACK_EMPTY; rqm.tcp = tcp; rqm.m16 = true; rqm.anstype = 1; rqm.addr = 0x64; rqm.seq = 0x7777;
+        em_prepare(&rqm);
+        const bool have_rq = em_receive_request(&rqm, &A);
         for (uint32_t i = 0; i <= 65536 && ok; ++i) {
             if (i % 5 == 3) {
                 /* responses sent in between are not requests of the session */
                 A.outlen = 0;
-                (void)regp_resp_ack(&A.p, &rq, NULL, 0);
+                if (have_rq)
+                    (void)regp_resp_ack(&A.p, rqm.req, NULL, 0);
                 (void)regp_resp_meta(&A.p, RP_META_EHEADERCRC);
                 mc_trans(2);
             }
@@ -764,13 +893,15 @@ main(int argc, char **argv)
                 emitted++;
             }
         }
+        em_drop_request(&rqm, &A);
+        em_release(&rqm);
         drv_release(&A);
         mc_log("%u of 65537 calls emitted a request", emitted);
         /* fewer than 2^16 + 1 emitted requests do not show the wrap */
         mc_end(emitted > 65536, !ok ? "failed" : emitted > 65536 ? "sequence-wraps" : emitted ? "sequence-partly-refused" : "refused");
     }
     family_sink_answers(th);
-    mc_finish(true, th ? "19 emitters x 2 transports x 2 memory widths x answered type x 7 addresses x 4 sequence numbers x sizes {0..70, boundary sizes up to 1000} x 4 contents / 6 payload values x request option bits (word size equal/different; all 8 combinations for blocks <= 4) x 3 receivers (block of 4096; blocks whose capacity, learned from the receiver's own answers to reference requests, is exactly the frame length / one octet more); 65537 consecutive requests per transport; sink answers: 19 emitters x 2 transports x 2 memory widths x octet/chunk sink x {EAGAIN, EINTR, short write 1, short write n-1, zero-length write, EIO} at every call position x a second answer at every later call position, frames of 0..8 units x 3 contents x 7 addresses / 2 payload values"
-                       : "19 emitters x 2 transports x 2 memory widths x answered type x 7 addresses x 4 sequence numbers x sizes {0..20, boundary sizes up to 1000} x 4 contents / 6 payload values x request option bits (word size equal/different; all 8 combinations for blocks <= 4) x 3 receivers (block of 4096; blocks whose capacity, learned from the receiver's own answers to reference requests, is exactly the frame length / one octet more); 65537 consecutive requests per transport; sink answers: 19 emitters x 2 transports x 2 memory widths x octet/chunk sink x {EAGAIN, EINTR, short write 1, short write n-1, zero-length write, EIO} at every call position x a second answer at the following call, frames of 0..5 units x 3 contents x 2 addresses / 2 payload values");
+    mc_finish(true, th ? "19 emitters x 2 transports x 2 memory widths x answered type x 7 addresses x 4 sequence numbers x sizes {0..70, boundary sizes up to 1000} x 4 contents (octet payloads at an even and an odd address) / 6 payload values x request option bits (word size equal/different; all 8 combinations for blocks <= 4; request frames as returned by the responder's own regp_recv, refused variants left out) x 3 receivers (block of 4096; blocks whose capacity, learned from the receiver's own answers to reference requests, is exactly the frame length / one octet more); 65537 consecutive requests per transport; sink answers: 19 emitters x 2 transports x 2 memory widths x octet/chunk sink x {EAGAIN, EINTR, short write 1, short write n-1, zero-length write, EIO} at every call position x a second answer at every later call position, frames of 0..8 units x 3 contents x 7 addresses / 2 payload values"
+                       : "19 emitters x 2 transports x 2 memory widths x answered type x 7 addresses x 4 sequence numbers x sizes {0..20, boundary sizes up to 1000} x 4 contents (octet payloads at an even and an odd address) / 6 payload values x request option bits (word size equal/different; all 8 combinations for blocks <= 4; request frames as returned by the responder's own regp_recv, refused variants left out) x 3 receivers (block of 4096; blocks whose capacity, learned from the receiver's own answers to reference requests, is exactly the frame length / one octet more); 65537 consecutive requests per transport; sink answers: 19 emitters x 2 transports x 2 memory widths x octet/chunk sink x {EAGAIN, EINTR, short write 1, short write n-1, zero-length write, EIO} at every call position x a second answer at the following call, frames of 0..5 units x 3 contents x 2 addresses / 2 payload values");
     return 0;
 }
